@@ -46,17 +46,7 @@ THEOREMS = [
     'Nb.C05.values_any_history',
     'Nb.C05.reorient_history_world',
 ]
-PENDING_FINDINGS = [{
-    'property': 'C05', 'signature': 'reorient:sequence-ornt-dim_info-typeerror', 'status': 'open',
-    'what': 'Nifti1Pair.as_reoriented(ornt) with `ornt` given as a nested list / tuple (the annotated type is '
-            'Sequence[Sequence[int]]; SpatialImage.as_reoriented and apply_orientation accept it) raises TypeError '
-            '"list indices must be integers or slices, not tuple" as soon as the header has a frequency / phase / '
-            'slice label: the dim_info remap indexes `ornt[orig_dim, 0]` without np.asarray (nifti1.py:2413); the '
-            'same call succeeds when no label is set',
-    'input': {'op': 'reor', 'shape': [1, 1, 1], 'aff': [1, 0, 0, 0, 0, 1, 0, 0, 0, 0, 1, 0],
-              'ornt': [[2, 1], [1, 1], [0, -1]], 'dim': [None, None, 0], 'cls': 'n1', 'stream': 'reorient-config',
-              'odt': 'list'},
-}]
+PENDING_FINDINGS = []     # 'reorient:sequence-ornt-dim_info-typeerror' was repaired by fix: 5e1197c5 (fixed entry in known_findings.json)
 
 ASSUMPTIONS = [
     'hand-written Lean model of SpatialFirstSlicer / as_reoriented / orientations.py / as_closest_canonical '
@@ -379,8 +369,6 @@ def mk_reor(shape, aff12, ornt, dim, cls='n1', stream='reorient', opts=None):
     ok = _opts(data, opts)
     suf, h = state_suffix(data)
     line = f'C05 {h}reor {",".join(map(str, shape))} {aff_arg(aff12)} {ornt_arg(ornt)} {fmt_dim(dim)}{suf}'
-    if seq_ornt_finding(data):
-        line = None        # PENDING_FINDINGS 'reorient:sequence-ornt-dim_info-typeerror': oracle only
     trivial = ornt == [[0, 1], [1, 1], [2, 1]]
     key = None if trivial else ('reor', tuple(shape), tuple(aff12), ornt_arg(ornt), fmt_dim(dim), cls, ok)
     return Case(line, data, key, stream)
